@@ -25,6 +25,10 @@ pub enum Val {
     Int(i64),
     Bool(bool),
     Str(u8),
+    /// an empty mapping `{}` as the property's value (an entry like any other)
+    EmptyMap,
+    /// a short list of integers
+    List(u8),
 }
 
 #[derive(Clone, Debug, Serialize, Deserialize)]
@@ -109,6 +113,11 @@ fn yaml_val(v: &Val) -> (String, Value) {
         Val::Str(i) => {
             let s = STRS[*i as usize % STRS.len()];
             (format!("\"{s}\""), Value::String(s.to_string()))
+        }
+        Val::EmptyMap => ("{}".to_string(), Value::Mapping(Default::default())),
+        Val::List(n) => {
+            let items: Vec<i64> = (0..(*n % 4) as i64).collect();
+            (format!("[{}]", items.iter().map(|i| i.to_string()).collect::<Vec<_>>().join(", ")), Value::Sequence(items.into_iter().map(|i| Value::Number(i.into())).collect()))
         }
     }
 }
@@ -656,7 +665,9 @@ impl Prop for C17 {
         let val = prop_oneof![
             (-5i64..300).prop_map(Val::Int),
             any::<bool>().prop_map(Val::Bool),
-            (0u8..STRS.len() as u8).prop_map(Val::Str)
+            (0u8..STRS.len() as u8).prop_map(Val::Str),
+            Just(Val::EmptyMap),
+            (0u8..4).prop_map(Val::List)
         ];
         let free_entry = (proptest::collection::vec(comp, 1..=4), 0u8..PROPS.len() as u8, val.clone())
             .prop_map(|(comps, prop, val)| Entry { comps, prop, val });
